@@ -232,7 +232,11 @@ class MPS(DNAS):
         :return: the precision-assignement found by the NAS
         :rtype: Dict[str, Dict[str, Any]]
         """
+        # convert() forces eval() on the seed: restore the training status afterwards
+        training_status = {m: m.training for m in self.seed.modules()}
         mod, _, _ = convert(self.seed, self._input_example, 'export')
+        for m, t in training_status.items():
+            m.training = t
         return mod
 
     def summary(self) -> Dict[str, Dict[str, Any]]:
